@@ -15,9 +15,11 @@ C07 (binned law):
 
 C06 (defining functions / reference roots); kind ∈ np (Neuber primary), ns (Neuber secondary),
 sp (Seeger-Beste primary), ss (Seeger-Beste secondary):
-  c06.F    kind E K n Kp s L   -> hex(F(s, L)) hex(a) hex(b) hex(u)
-                                  Neuber: a = strain term, b = Neuber term (F = a − b), u = 0
-                                  Seeger-Beste: a = strain term, b = middle term · Neuber term (F = a / b − 1), u = u-term
+  c06.F    kind E K n Kp s L   -> hex(F(s, L)) hex(a) hex(b) hex(u) hex(M)
+                                  Neuber: a = strain term, b = Neuber term (F = a − b), u = 0, M = 1
+                                  Seeger-Beste: a = strain term, b = middle term · Neuber term (F = a / b − 1), u = u-term,
+                                  M = middle term
+  c06.strain kind E K n Kp s L -> hex   `law.strain(s, L)` (kinds np, sp) resp. `law.strain_secondary_branch(s, L)` (ns, ss)
   c06.root kind E K n Kp L     -> hex   root in σ of F(σ, L) by bisection on [L/K_p, L] (200 halvings)
   c06.load kind E K n Kp s     -> hex   root in L of F(s, L) by bisection on [s, K_p·s]
 -/
@@ -112,13 +114,21 @@ def handle : List String → Option String
     let s ← parseFloat? s
     let l ← parseFloat? l
     let F ← defining kind m
-    let (a, b, u) :=
+    let (a, b, u, mid) :=
       match kind with
-      | "np" => (roStrain m s, neuberStrain m s l, 0.0)
-      | "ns" => (roDeltaStrain m s, neuberStrainSec m s l, 0.0)
-      | "sp" => (roStrain m s, middleTerm m s l * neuberStrain m s l, uTerm m s l)
-      | _ => (roDeltaStrain m s, middleTerm m s l * neuberStrainSec m s l, uTerm m s l)
-    some s!"{floatHex (F s l)} {floatHex a} {floatHex b} {floatHex u}"
+      | "np" => (roStrain m s, neuberStrain m s l, 0.0, 1.0)
+      | "ns" => (roDeltaStrain m s, neuberStrainSec m s l, 0.0, 1.0)
+      | "sp" => (roStrain m s, middleTerm m s l * neuberStrain m s l, uTerm m s l, middleTerm m s l)
+      | _ => (roDeltaStrain m s, middleTerm m s l * neuberStrainSec m s l, uTerm m s l, middleTerm m s l)
+    some s!"{floatHex (F s l)} {floatHex a} {floatHex b} {floatHex u} {floatHex mid}"
+  | ["c06.strain", kind, e, k, n, kp, s, l] => do
+    let m : Mat Float := { E := ← parseFloat? e, K := ← parseFloat? k, n := ← parseFloat? n, Kp := ← parseFloat? kp }
+    let s ← parseFloat? s
+    let l ← parseFloat? l
+    match kind with
+    | "np" | "sp" => some (floatHex (lawStrain m s l))
+    | "ns" | "ss" => some (floatHex (lawStrainSec m s l))
+    | _ => none
   | ["c06.root", kind, e, k, n, kp, l] => do
     let m : Mat Float := { E := ← parseFloat? e, K := ← parseFloat? k, n := ← parseFloat? n, Kp := ← parseFloat? kp }
     let F ← defining kind m
